@@ -3,7 +3,10 @@
 //! Case line (shared with ocaml/suites/c03.ml):
 //!   tstack <kind 0=draw_iter-only|1=native> <bb x y w h> <nad> <adapters, innermost first> <nops> <ops>
 //!     adapter:  C x y w h (clipped) | R x y w h (cropped) | T dx dy (translated) | V (color_converted)
-//!     op:       D n (x y c)*n | F x y w h L n c*n | F x y w h G n a b (n colours (a*i+b) mod 251)
+//!     op:       D n (x y c)*n (draw_iter) | P x y c (`Pixel(p, c).draw(t)`, core/src/drawable.rs:146)
+//!               | DI n (x y c)*n (`pixels.into_iter().draw(t)`, PixelIteratorExt::draw, src/iterator/mod.rs:51)
+//!               | DT dx dy n (x y c)*n (`pixels.into_iter().translated(d).draw(t)`, iterator/pixel.rs)
+//!               | F x y w h L n c*n | F x y w h G n a b (n colours (a*i+b) mod 251)
 //!               | F x y w h I c (endless repeat) | S x y w h c | K c
 //!   result:  BB <outermost bounding_box()> MAP <root pixel map after op 1> | <after op 2> | ...
 //!            (each map sorted by (y,x); the state of the innermost parent after EVERY operation)
@@ -148,6 +151,9 @@ pub enum Ad {
 #[derive(Clone, Debug)]
 pub enum Op {
     D(Vec<(Point, u32)>),
+    P(Point, u32),
+    DI(Vec<(Point, u32)>),
+    DT(Point, Vec<(Point, u32)>),
     F(Rectangle, Vec<u32>),
     FRep(Rectangle, u32),
     S(Rectangle, u32),
@@ -184,6 +190,10 @@ pub fn go<E>(t: &mut dyn DynT<K, E>, ads: &[Ad], boxes: &mut Vec<Rectangle>, f: 
 pub fn apply<T: DrawTarget<Color = K>>(t: &mut T, op: &Op) -> Result<(), T::Error> {
     match op {
         Op::D(ps) => t.draw_iter(ps.iter().map(|&(p, c)| Pixel(p, K(c as u8)))),
+        // the public entry points that end in draw_iter: Drawable for Pixel, PixelIteratorExt::draw / translated
+        Op::P(p, c) => Pixel(*p, K(*c as u8)).draw(t),
+        Op::DI(ps) => ps.iter().map(|&(p, c)| Pixel(p, K(c as u8))).draw(t),
+        Op::DT(d, ps) => ps.iter().map(|&(p, c)| Pixel(p, K(c as u8))).translated(*d).draw(t),
         Op::F(r, cs) => t.fill_contiguous(r, cs.iter().map(|&c| K(c as u8))),
         Op::FRep(r, c) => t.fill_contiguous(r, core::iter::repeat(K(*c as u8))),
         Op::S(r, c) => t.fill_solid(r, K(*c as u8)),
@@ -311,6 +321,16 @@ pub fn parse(a: &[&str]) -> Case {
                 let n = us(nx());
                 Op::D((0..n).map(|_| (pt(nx(), nx()), u(nx()))).collect())
             }
+            "P" => Op::P(pt(nx(), nx()), u(nx())),
+            "DI" => {
+                let n = us(nx());
+                Op::DI((0..n).map(|_| (pt(nx(), nx()), u(nx()))).collect())
+            }
+            "DT" => {
+                let d = pt(nx(), nx());
+                let n = us(nx());
+                Op::DT(d, (0..n).map(|_| (pt(nx(), nx()), u(nx()))).collect())
+            }
             "F" => {
                 let r = rc(nx(), nx(), nx(), nx());
                 match nx() {
@@ -398,6 +418,8 @@ pub fn run(suite: &str, a: &[&str]) -> Option<String> {
         "tcrop" => tcrop(a),
         "p_stack" => p_stack(&parse(a)),
         "p_chain" => p_chain(a),
+        "tinto" => into_pixels_list(a).iter().map(|(p, c)| format!("{}:{}:{}", p.x, p.y, c)).collect::<Vec<_>>().join(","),
+        "p_into_pixels" => p_into_pixels(a),
         _ => return None,
     })
 }
@@ -539,9 +561,15 @@ fn expect_after(rf: &Reference, expect: &mut Map, op: &Op) {
         }
     };
     match op {
-        Op::D(ps) => {
+        Op::D(ps) | Op::DI(ps) => {
             for (p, col) in ps {
                 put(p.x as i64, p.y as i64, *col)
+            }
+        }
+        Op::P(p, col) => put(p.x as i64, p.y as i64, *col),
+        Op::DT(d, ps) => {
+            for (p, col) in ps {
+                put(p.x as i64 + d.x as i64, p.y as i64 + d.y as i64, *col)
             }
         }
         Op::F(r, cs) => {
@@ -645,4 +673,49 @@ fn p_chain(a: &[&str]) -> String {
         }
     }
     format!("OK {}", expect.len())
+}
+
+// ---- ContiguousIteratorExt::into_pixels (src/iterator/mod.rs:26, contiguous.rs IntoPixels) ----
+///   tinto / p_into_pixels <x y w h> L n c*n | G n a b | I c
+/// `colors.into_iter().into_pixels(&area)` collected (an endless stream ends with the area)
+fn stream_of(a: &[&str]) -> (Vec<u32>, Option<u32>) {
+    match a[0] {
+        "L" => ((0..us(a[1])).map(|i| u(a[2 + i])).collect(), None),
+        "G" => {
+            let (n, ga, gb) = (us(a[1]), us(a[2]), us(a[3]));
+            ((0..n).map(|i| ((ga * i + gb) % 251) as u32).collect(), None)
+        }
+        _ => (Vec::new(), Some(u(a[1]))),
+    }
+}
+fn into_pixels_list(a: &[&str]) -> Vec<(Point, u32)> {
+    use embedded_graphics::iterator::ContiguousIteratorExt;
+    let area = rc(a[0], a[1], a[2], a[3]);
+    let (cs, rep) = stream_of(&a[4..]);
+    match rep {
+        None => cs.iter().map(|&c| K(c as u8)).into_pixels(&area).map(|Pixel(p, c)| (p, c.0 as u32)).collect(),
+        Some(c) => core::iter::repeat(K(c as u8)).into_pixels(&area).take(4_000_000).map(|Pixel(p, c)| (p, c.0 as u32)).collect(),
+    }
+}
+/// the explicit reference: the i-th colour goes to (x + i mod w, y + i div w) for i < min(stream length, w*h)
+fn p_into_pixels(a: &[&str]) -> String {
+    let got = into_pixels_list(a);
+    let (x, y, w, h) = (a[0].parse::<i64>().unwrap(), a[1].parse::<i64>().unwrap(), a[2].parse::<i64>().unwrap(), a[3].parse::<i64>().unwrap());
+    let (cs, rep) = stream_of(&a[4..]);
+    let n = w * h;
+    let len = match rep {
+        Some(_) => n,
+        None => n.min(cs.len() as i64),
+    };
+    if got.len() as i64 != len {
+        return format!("FAIL {} pixels, expected {}", got.len(), len);
+    }
+    for i in 0..len {
+        let e = (x + i % w, y + i / w, rep.unwrap_or_else(|| cs[i as usize]));
+        let g = got[i as usize];
+        if (g.0.x as i64, g.0.y as i64, g.1) != e {
+            return format!("FAIL item {}: got ({},{}) {} expected ({},{}) {}", i, g.0.x, g.0.y, g.1, e.0, e.1, e.2);
+        }
+    }
+    format!("OK {}", len)
 }
